@@ -100,7 +100,29 @@ def scan(repo=None):
             if n.attr not in reads:
                 reads.append(n.attr)
     reads.sort()
-    return dict(defaults=[(d, v) for d, v, _ in defaults], assigns=[(d, v) for d, v, _ in assigns],
+
+    # ---- class Config: attributes bound at class level to a mutable object are shared by every Config()
+    cfg_class_mutable, cfg_class_attrs, cfg_init_attrs = [], [], []
+    for n in tree.body:
+        if isinstance(n, ast.ClassDef) and n.name == "Config":
+            for st in n.body:
+                if isinstance(st, (ast.Assign, ast.AnnAssign)):
+                    targets = st.targets if isinstance(st, ast.Assign) else [st.target]
+                    for t in targets:
+                        if isinstance(t, ast.Name):
+                            cfg_class_attrs.append(t.id)
+                            v = st.value
+                            if v is not None and not isinstance(v, ast.Constant) and not (
+                                    isinstance(v, ast.Tuple) and all(isinstance(e, ast.Constant) for e in v.elts)):
+                                cfg_class_mutable.append(t.id)
+                elif isinstance(st, ast.FunctionDef) and st.name == "__init__":
+                    for a in ast.walk(st):
+                        if isinstance(a, ast.Assign):
+                            for t in a.targets:
+                                if isinstance(t, ast.Attribute) and isinstance(t.value, ast.Name) and t.value.id == "self":
+                                    cfg_init_attrs.append(t.attr)
+    return dict(cfg_class_mutable=cfg_class_mutable, cfg_class_attrs=cfg_class_attrs, cfg_init_attrs=cfg_init_attrs,
+                defaults=[(d, v) for d, v, _ in defaults], assigns=[(d, v) for d, v, _ in assigns],
                 reads=reads, params=list(params))
 
 
@@ -160,6 +182,12 @@ def render(data):
     out.append("def wrapperAssigns : List (Nat × V) := [")
     out.append(",\n".join("  /- %s -/ (%d, %s)" % (d, idx[d], _lean_v(v)) for d, v in data["assigns"]))
     out.append("]")
+    out.append("")
+    out.append("/-- attributes of `class Config` bound at class level to a mutable object (shared by all instances) -/")
+    out.append("def configClassMutable : List (List Nat) := [" + ", ".join(_nats(n) for n in data["cfg_class_mutable"]) + "]")
+    out.append("")
+    out.append("/-- attributes `Config.__init__` creates per instance -/")
+    out.append("def configInitAttrs : List (List Nat) := [" + ", ".join("/- %s -/ %s" % (n, _nats(n)) for n in data["cfg_init_attrs"]) + "]")
     out.append("")
     out.append("def reads : List Nat := [" + ", ".join("/- %s -/ %d" % (d, idx[d]) for d in data["reads"]) + "]")
     out.append("")
